@@ -26,7 +26,8 @@ P["C01"] = dict(
         "R-SIGN-SLICE: every laea aspect (north/south polar) is reachable",
         "R-PARAM-MIRROR: (program slice) the values written by the forward and by the inverse function of every "
         "invertible operator depend on the same set of parameters",
-             "R-ARG-SELECTION: at every call of a crate function no argument is a caller variable named like another same-typed parameter of the callee (exchanged arguments of equal type, e.g. qs(e, sinphi), chase(&locals, globals, key))"],
+             "R-ARG-SELECTION: at every call of a crate function no argument is a caller variable named like another same-typed parameter of the callee (exchanged arguments of equal type, e.g. qs(e, sinphi), chase(&locals, globals, key))",
+             "R-STACK-DUAL: the inverse of every stack sub-command is the documented dual (roll <-> unroll with m-n, push <-> pop with reversed arguments, swap/flip self-dual)"],
     not_decided=["numerical round-trip accuracy of any operator", "domain limits", "grid based shifts"],
     level="Decides structural clauses that are necessary conditions of 'inverse undoes forward' (see decides); does "
           "not decide the numerical round-trip accuracy of any operator.",
@@ -39,7 +40,8 @@ P["C05"] = dict(
              "(northing on the central meridian is the scaled meridian arc)",
              "R-SIGN-SLICE: laea's polar aspect selection depends on the sign of lat_0 (all aspects reachable)",
              "R-DIMENSION: (units-of-measure inference) every addition, subtraction and comparison in the ellipsoid geometry and in the operators with documented tuple conventions joins quantities of one physical dimension, transcendental functions get dimensionless arguments, and written tuple elements have the documented dimension (length / angle / time)",
-             "R-ARG-SELECTION: at every call of a crate function no argument is a caller variable named like another same-typed parameter of the callee (exchanged arguments of equal type, e.g. qs(e, sinphi), chase(&locals, globals, key))"],
+             "R-ARG-SELECTION: at every call of a crate function no argument is a caller variable named like another same-typed parameter of the callee (exchanged arguments of equal type, e.g. qs(e, sinphi), chase(&locals, globals, key))",
+             "R-PARAM-MIRROR: forward and inverse of each projection depend on the same parameters (same ellipsoid in both directions)"],
     not_decided=["conformality, equal-area and true-scale identities (differential statements over R^2)"],
     level="Decides two necessary table identities of the transverse Mercator geometry; the differential geometry "
           "of the projections is not decidable statically and is not claimed.",
@@ -55,7 +57,8 @@ P["C06"] = dict(
              "R-DIMENSION: (units-of-measure inference) every addition, subtraction and comparison in the ellipsoid geometry and in the operators with documented tuple conventions joins quantities of one physical dimension, transcendental functions get dimensionless arguments, and written tuple elements have the documented dimension (length / angle / time)",
              "R-UNIT-DIVISOR: no division by 1 - x*x with x a product of sines and cosines (|x| = 1 attained, e.g. on the equator) without a test of the divisor",
              "R-ITER-CAP-AGREE: the geodesic operator tests the iteration count returned by geodesic_inv against a threshold below geodesic_inv's iteration cap (non-convergence is detectable)",
-             "R-ARG-SELECTION: at every call of a crate function no argument is a caller variable named like another same-typed parameter of the callee (exchanged arguments of equal type, e.g. qs(e, sinphi), chase(&locals, globals, key))"],
+             "R-ARG-SELECTION: at every call of a crate function no argument is a caller variable named like another same-typed parameter of the callee (exchanged arguments of equal type, e.g. qs(e, sinphi), chase(&locals, globals, key))",
+             "R-PARAM-MIRROR: the latitude operator uses the same ellipsoid forward and inverse"],
     not_decided=["cartesian/geographic accuracy", "geodesic consistency", "closed-form agreement of series",
                  "identities among derived shape parameters"],
     level="Decides the table/series clauses of ellipsoid coherence exactly; numerical clauses are not claimed.",
@@ -135,7 +138,8 @@ P["C08"] = dict(
              "R-FULL-RANGE: the unit/band conversion loops of normalize_gravsoft_grid_values cover 0..grid.len()",
              "R-ARG-SELECTION: at every call of a crate function no argument is a caller variable named like another same-typed parameter of the callee (exchanged arguments of equal type, e.g. qs(e, sinphi), chase(&locals, globals, key))",
              "R-NULL-LAST: in grids_at the null grid answers only after the strict and the margin pass over all grids have failed",
-             "R-NTV2-FIELDS: grid geometry (increments, bounds) of NTv2 sub-grids comes from the records documented for it"],
+             "R-NTV2-FIELDS: grid geometry (increments, bounds) of NTv2 sub-grids comes from the records documented for it",
+             "R-BILINEAR: BaseGrid::at is decided to be the bilinear interpolation of the four corner nodes of the cell: two latitude interpolations (1-r)*lower + r*upper with one weight over rows `row`/`row-1` (index difference -bands*cols, as polynomials) of the columns `col`/`col+1`, joined in longitude with weight r_lon; the weights are the cell-unit offsets from the lower-left node built from the clamped row/col that index the nodes; row is clamped to [1, rows-1], col to [0, cols-2]"],
     not_decided=["bilinearity, continuity, NTv2 sub-grid selection values", "unit conventions"],
     level="Decides the 'outside all grids is failed' clause as a path property; interpolation numerics are not decided.",
     design_ref="DESIGN.md section 3, C08",
@@ -154,7 +158,8 @@ P["C10"] = dict(
              "the operator does not work on as copies of the same element of the tuple read",
              "R-TUPLE-LOOP-COMPLETE: per-tuple loops visit every tuple (no break/return in the body), so no tuple is left untransformed, uncounted and looking valid",
              "R-ITER-CAP-AGREE: the non-convergence test of the geodesic operator can fire: threshold < iteration cap of geodesic_inv, applied to the count as returned",
-             "R-PLACEHOLDER: the stand-in for a missing inverse (InnerOp::default) writes nothing and returns the constant 0"],
+             "R-PLACEHOLDER: the stand-in for a missing inverse (InnerOp::default) writes nothing and returns the constant 0",
+             "R-LOOP-CARRIED: no state survives from one tuple to the next (the helmert epoch memo starts at NaN and is refreshed whenever the epoch differs - a NaN epoch never reuses parameters)"],
     not_decided=["NaN propagation through arithmetic", "which inputs are inside the domain"],
     level="Decides the counting/NaN discipline and untouched-axes clauses as all-paths properties of the operator "
           "loops; numerical domain questions are not decided.",
@@ -177,7 +182,8 @@ P["C04"] = dict(
              "(fails today: known finding)",
              "R-CHASE-CALLS: every typed extraction calls chase(globals, &locals, key) with the maps in this order",
              "R-ARG-SELECTION: at every call of a crate function no argument is a caller variable named like another same-typed parameter of the callee (exchanged arguments of equal type, e.g. qs(e, sinphi), chase(&locals, globals, key))",
-             "R-OMIT-SCOPE: the steps of a pipeline are built from globals from which the invocation's omit_fwd/omit_inv have been removed (a macro step with `inv omit_*` is the inverse of its expansion)"],
+             "R-OMIT-SCOPE: the steps of a pipeline are built from globals from which the invocation's omit_fwd/omit_inv have been removed (a macro step with `inv omit_*` is the inverse of its expansion)",
+             "R-INV-SCOPE: the invocation's inv is removed from the globals handed to the macro body"],
     not_decided=["that $name, $name(d), (d) forms evaluate to the documented values", "precedence of values",
                  "equivalence of an invocation with its textual expansion", "stack frame sizes (101 levels assumed to fit)"],
     level="Decides termination of macro resolution (bounded recursion, terminating loops) as a structural proof "
@@ -198,7 +204,8 @@ P["C09"] = dict(
              "R-REC-GUARD: bounded recursion", "T-ELLPS(parse): every table string parsed with unwrap is valid f64 syntax",
              "R-STR-SLICE: every byte-range slice of a str cuts at char boundaries (full range, find()/len() derived "
              "offsets, or a reviewed site)", "R-UNDERFLOW-GUARD: stack accesses are preceded by a depth test",
-             "R-SLICE-INDEX-GUARD: in operator constructors a list-valued parameter is indexed only after a dominating test of its length that makes the index valid"],
+             "R-SLICE-INDEX-GUARD: in operator constructors a list-valued parameter is indexed only after a dominating test of its length that makes the index valid",
+             "R-BILINEAR/cell-range: the clamps of BaseGrid::at keep all four node indices inside the grid"],
     not_decided=["index arithmetic and slicing in general (455 clippy indexing sites; no bounds prover attempted)",
                  "arithmetic overflow", "stack depth in bytes"],
     level="Decides the named panic/hang mechanisms on all paths; does not decide absence of every possible panic.",
@@ -218,7 +225,8 @@ P["C12"] = dict(
              "R-PIPE-MIN: an underflow (0) in any step makes the pipeline report 0",
              "R-UNDERFLOW-GUARD/exact: the depth tests are strict (`depth < demand` fails), a program needing exactly the available depth is not an underflow",
              "R-ARG-SELECTION: at every call of a crate function no argument is a caller variable named like another same-typed parameter of the callee (exchanged arguments of equal type, e.g. qs(e, sinphi), chase(&locals, globals, key))",
-             "R-UNDERFLOW-GUARD/sub: a `depth - x` in a stack primitive is computed only after that very x has been tested against the depth"],
+             "R-UNDERFLOW-GUARD/sub: a `depth - x` in a stack primitive is computed only after that very x has been tested against the depth",
+             "R-LOOP-CARRIED: the stack primitives keep no running state across the operands of a set (depth counters, iterators)"],
     not_decided=["abstract-machine equivalence of the primitives", "constructor-time numeric validation"],
     level="Decides that the dispatch tables are total and read the right keys; the machine semantics are only "
           "partially decided (see DESIGN.md).",
@@ -348,7 +356,8 @@ P["C14"] = dict(
              "R-PARAM-MIRROR: forward and inverse of the operators that wrap ellipsoid methods depend on the same parameters (same ellipsoid in both directions)",
              "R-WRAPPER-DISPATCH: each variant (flag / action) of the latitude, curvature and gravity operators applies exactly the ellipsoid method documented for it, forward and inverse (the operator and the method are the same route)",
              "R-ARG-SELECTION: at every call of a crate function no argument is a caller variable named like another same-typed parameter of the callee (exchanged arguments of equal type, e.g. qs(e, sinphi), chase(&locals, globals, key))",
-             "R-ITER-CAP-AGREE: the geodesic operator rejects only runs at the iteration cap of the ellipsoid method (threshold within 1% of the cap), so operator and method agree on every converged solution"],
+             "R-ITER-CAP-AGREE: the geodesic operator rejects only runs at the iteration cap of the ellipsoid method (threshold within 1% of the cap), so operator and method agree on every converged solution",
+             "R-INDEX-SPACE: adapt reads the multiplier of the source descriptor at the gathered index (agreement of adapt with axisswap for the mappings they share)"],
     not_decided=["every numerical agreement listed in the statement (tmerc vs btmerc, cart vs geocart inverse, "
                  "series vs closed forms and quadrature)"],
     level="Decides wiring agreement between independent routes; numerical agreement is not decided.",
